@@ -7,7 +7,9 @@ package gen
 // alternatives drawn as the leaves of a random decision tree over the predicates (so the
 // conjunctions are mutually exclusive and exhaustive, with negated and positive literals, 2..5
 // alternatives). The decision is taken either directly in applyRule() or, wrapped in another
-// lookahead, in the generated lookaheadRule(); options cancellable and recursiveLookaheads vary.
+// lookahead, in the generated lookaheadRule(); options cancellable, recursiveLookaheads, optimizeTables and
+// minimizeDFA vary (minimizeDFA merges the final states of the lookahead inputs: the memo of lookahead() must
+// not confuse two predicates evaluated at the same offset - defect F26, repaired).
 // The real pipeline generates a parser package per grammar; one driver is built for all of them and
 // run on every statement "x <letter> [t1] [t2] [t3] ;": the statement must be reported as Good
 // exactly when its letter is the one of the alternative whose conjunction holds.
@@ -39,6 +41,7 @@ type g08Grammar struct {
 	cancellable bool
 	recursive   bool
 	optimize    bool // optimizeTables: the parser (and its lookahead() copy) decodes the compressed tables
+	minimize    bool // minimizeDFA: bisimilar states of the automaton are merged before the tables are written
 	text        string
 }
 
@@ -76,7 +79,7 @@ func g08Tree(r *vRand, npred int, path []g08Lit, used map[int]bool, budget *int)
 }
 
 func g08Gen(r *vRand, idx int) *g08Grammar {
-	g := &g08Grammar{idx: idx, npred: 2 + r.Intn(2), nested: idx%2 == 0, cancellable: idx%4 < 2, recursive: idx%3 != 0, optimize: idx%5 < 2}
+	g := &g08Grammar{idx: idx, npred: 2 + r.Intn(2), nested: idx%2 == 0, cancellable: idx%4 < 2, recursive: idx%3 != 0, optimize: idx%5 < 2, minimize: idx%7 == 3}
 	if g.nested {
 		// lookaheads inside lookaheads are only evaluated by parsers generated with
 		// recursiveLookaheads = true (the meaning of that option)
@@ -90,7 +93,7 @@ func g08Gen(r *vRand, idx int) *g08Grammar {
 		g.alts[i], g.alts[j] = g.alts[j], g.alts[i]
 	}
 	var sb strings.Builder
-	fmt.Fprintf(&sb, "language p%d(go);\n\nlang = \"p%d\"\npackage = \"vmod/p%d\"\neventBased = true\ncancellable = %v\nrecursiveLookaheads = %v\noptimizeTables = %v\n\n:: lexer\n\nWhiteSpace: /[ \\t\\r\\n]/ (space)\n\n'x': /x/\n';': /;/\n", idx, idx, idx, g.cancellable, g.recursive, g.optimize)
+	fmt.Fprintf(&sb, "language p%d(go);\n\nlang = \"p%d\"\npackage = \"vmod/p%d\"\neventBased = true\ncancellable = %v\nrecursiveLookaheads = %v\noptimizeTables = %v\nminimizeDFA = %v\n\n:: lexer\n\nWhiteSpace: /[ \\t\\r\\n]/ (space)\n\n'x': /x/\n';': /;/\n", idx, idx, idx, g.cancellable, g.recursive, g.optimize, g.minimize)
 	for _, l := range g08Letters[:len(g.alts)] {
 		fmt.Fprintf(&sb, "'%s': /%s/\n", l, l)
 	}
@@ -222,7 +225,7 @@ func init() {
 `
 
 func TestVerifC08Generated(t *testing.T) {
-	ck := vNew("C08/generated-parsers", "seeded grammars with 2..3 predicates and 2..5 mutually exclusive alternatives (leaves of a random decision tree, shuffled), decided in applyRule() or nested in lookaheadRule(), options cancellable x recursiveLookaheads x optimizeTables; every statement 'x <letter> [p] [q] [r] ;'", false,
+	ck := vNew("C08/generated-parsers", "seeded grammars with 2..3 predicates and 2..5 mutually exclusive alternatives (leaves of a random decision tree, shuffled), decided in applyRule() or nested in lookaheadRule(), options cancellable x recursiveLookaheads x optimizeTables x minimizeDFA; every statement 'x <letter> [p] [q] [r] ;'", false,
 		"GenerateFile", "go_parser.go.tmpl:applyRule", "go_parser.go.tmpl:lookaheadRule", "go_parser.go.tmpl:lookahead", "lalr.newLookaheadRule")
 	base := os.Getenv("VERIF_TMP")
 	if base == "" {
@@ -351,7 +354,7 @@ func TestVerifC08Generated(t *testing.T) {
 		for k, src := range inputs[g.idx] {
 			ck.Case(true)
 			if got[g.idx][k] != want[g.idx][k] {
-				ck.Failf(map[string]interface{}{"grammar": g.text, "input": src}, "generated parser (nested=%v cancellable=%v recursiveLookaheads=%v optimizeTables=%v, %d alternatives over %d predicates) reports %q as %s, the alternative whose predicates hold makes it %s", g.nested, g.cancellable, g.recursive, g.optimize, len(g.alts), g.npred, src, got[g.idx][k], want[g.idx][k])
+				ck.Failf(map[string]interface{}{"grammar": g.text, "input": src}, "generated parser (nested=%v cancellable=%v recursiveLookaheads=%v optimizeTables=%v minimizeDFA=%v, %d alternatives over %d predicates) reports %q as %s, the alternative whose predicates hold makes it %s", g.nested, g.cancellable, g.recursive, g.optimize, g.minimize, len(g.alts), g.npred, src, got[g.idx][k], want[g.idx][k])
 				break
 			}
 		}
